@@ -308,7 +308,8 @@ impl<T: Qcow2IoOps> Qcow2Dev<T> {
                             break;
                         }
                     }
-                    Err(_) => break,
+                    // a failed read isn't one short read
+                    Err(e) => return Err(e),
                 };
             }
             s
